@@ -26,7 +26,7 @@ func cases(tier string) int {
 	if tier == "thorough" {
 		return 5000
 	}
-	return 320
+	return 640
 }
 
 func run(r *mon.Report, tier string, idx int, rng *rand.Rand) {
